@@ -3,12 +3,83 @@
 package api
 
 import (
+	"encoding/json"
 	"fmt"
+	"net/http"
+	"net/http/httptest"
 	"strings"
 	"testing"
 
+	"github.com/gin-gonic/gin"
+	"github.com/google/uuid"
+
+	"github.com/bluenviron/mediamtx/internal/defs"
+	"github.com/bluenviron/mediamtx/internal/logger"
 	"github.com/bluenviron/mediamtx/internal/verifutil"
 )
+
+// stub path manager: a fresh list of n paths named by their index on every call, like the real path manager
+type verifC44PM struct{ n int }
+
+func (pm *verifC44PM) APIPathsList() (*defs.APIPathList, error) {
+	l := &defs.APIPathList{Items: make([]defs.APIPath, pm.n)}
+	for i := range l.Items {
+		l.Items[i] = defs.APIPath{Name: fmt.Sprint(i)}
+	}
+	return l, nil
+}
+func (pm *verifC44PM) APIPathsGet(string) (*defs.APIPath, error) { return nil, fmt.Errorf("unused") }
+func (pm *verifC44PM) APIForwardDestList(string) (*defs.APIForwardDestList, error) {
+	return nil, fmt.Errorf("unused")
+}
+func (pm *verifC44PM) APIForwardDestGet(string, uuid.UUID) (*defs.APIForwardDest, error) {
+	return nil, fmt.Errorf("unused")
+}
+
+type verifC44Parent struct{ apiParent }
+
+func (verifC44Parent) Log(logger.Level, string, ...any) {}
+
+func verifC44Handler(n int, ipp string, pages []string) string {
+	gin.SetMode(gin.ReleaseMode)
+	a := &API{PathManager: &verifC44PM{n: n}, Parent: verifC44Parent{}}
+	var out []string
+	for _, p := range pages {
+		w := httptest.NewRecorder()
+		ctx, _ := gin.CreateTestContext(w)
+		ctx.Request = httptest.NewRequest(http.MethodGet, "/v3/paths/list?itemsPerPage="+ipp+"&page="+p, nil)
+		a.onPathsList(ctx)
+		if w.Code != http.StatusOK {
+			out = append(out, fmt.Sprintf("status%d", w.Code))
+			continue
+		}
+		var res struct {
+			ItemCount int `json:"itemCount"`
+			PageCount int `json:"pageCount"`
+			Items     []struct {
+				Name string `json:"name"`
+			} `json:"items"`
+		}
+		if err := json.Unmarshal(w.Body.Bytes(), &res); err != nil {
+			out = append(out, "badjson")
+			continue
+		}
+		items := make([]int, len(res.Items))
+		for i, it := range res.Items {
+			items[i] = verifutil.Atoi(it.Name)
+			if i > 0 && items[i] != items[i-1]+1 {
+				items = nil
+				break
+			}
+		}
+		if items == nil && len(res.Items) > 0 {
+			out = append(out, fmt.Sprintf("%d/%d/nonconsecutive", res.ItemCount, res.PageCount))
+			continue
+		}
+		out = append(out, fmt.Sprintf("%d/%d/%s", res.ItemCount, res.PageCount, verifC44Span(items)))
+	}
+	return strings.Join(out, " ")
+}
 
 func verifC44Span(items []int) string {
 	if len(items) == 0 {
@@ -36,6 +107,8 @@ func verifC44Exec(op string) string {
 			}
 		}
 		return fmt.Sprintf("ok %d %s", pc, verifC44Span(items))
+	case "hl":
+		return verifC44Handler(verifutil.Atoi(f[1]), f[2], strings.Split(f[3], ","))
 	case "all":
 		n := verifutil.Atoi(f[1])
 		ipp := f[2]
@@ -94,6 +167,24 @@ func verifC44Gen(r *verifutil.Rand, i int, thorough bool) []string {
 	if i < grid {
 		return []string{fmt.Sprintf("all %d %d", i/12, i%12+1)}
 	}
+	if r.Intn(6) == 0 {
+		// through the HTTP handler, several requests in a row on one API instance: a walk over all pages (and two past
+		// the end), or pages in random order with repetitions
+		n := r.Intn(60)
+		ipp := 1 + r.Intn(n+3)
+		pc := (n + ipp - 1) / ipp
+		var pages []string
+		if r.Bool() {
+			for p := 0; p < pc+2; p++ {
+				pages = append(pages, fmt.Sprint(p))
+			}
+		} else {
+			for k := 2 + r.Intn(5); k > 0; k-- {
+				pages = append(pages, fmt.Sprint(r.Intn(pc+2)))
+			}
+		}
+		return []string{fmt.Sprintf("hl %d %d %s", n, ipp, strings.Join(pages, ","))}
+	}
 	if r.Intn(8) == 0 {
 		// long lists and page sizes around round numbers (a server-side cap, a fixed-size buffer or a narrower integer
 		// would sit there): the number of pages is kept below ~25 so that `all` stays cheap
@@ -113,6 +204,10 @@ func verifC44Gen(r *verifutil.Rand, i int, thorough bool) []string {
 		return []string{fmt.Sprintf("all %d %d", n, r.Intn(n+5)+1)}
 	}
 	n := r.Intn(maxLen)
+	if r.Intn(5) == 0 {
+		// empty and tiny lists with every kind of parameter: validation must not depend on the list
+		n = r.Intn(3)
+	}
 	return []string{fmt.Sprintf("pg %d %s %s", n, verifutil.HexS(verifC44Param(r, n+3)), verifutil.HexS(verifC44Param(r, 8)))}
 }
 
